@@ -28,6 +28,7 @@ func c11(c *Ctx) {
 	ruleAnyFixedParks(c, "C11.R5")
 	c11R6(c)
 	c11R7(c)
+	c11R9(c)
 	// the webhook derives each requested network's entry (allocation type, release strategy) on its own:
 	// a record's retention policy is the one its network asked for
 	itemIndependent(c, "C11.R8", [][3]string{{"pkg/controller/webhook", "getPodNetworkRequests", "one network entry (with its own allocation type) per requested network"}})
@@ -849,4 +850,50 @@ func c11R7(c *Ctx) {
 		}
 	}
 	c.Floor("C11.R7", "lists of PodENI records", 2, n)
+}
+
+// R9: a record without the trunk flag is not an exclusive-ENI request. Records written by older builds
+// have no attachmentOptions.trunk; the admission guard of podENICreate that refuses "an exclusive-ENI
+// pod on a trunking node" fires only for a flag that is present and false — otherwise every such
+// fixed-IP record would be refused on each retry and its pod never get its interface back.
+func c11R9(c *Ctx) {
+	p := c.P
+	c.Rule("C11.R9", "podENICreate refuses a record for its trunk flag only when the flag is present (Trunk != nil) — an absent flag (older record) is not read as 'exclusive ENI requested'")
+	fn := p.Func(podENICtlPkg, "ReconcilePodENI.podENICreate")
+	if fn == nil {
+		c.Unres("C11.R9", "ReconcilePodENI.podENICreate", "not found")
+		return
+	}
+	info := fn.Info()
+	sig := fn.Obj.Type().(*types.Signature)
+	n := 0
+	ast.Inspect(fn.Decl.Body, func(k ast.Node) bool {
+		is, ok := k.(*ast.IfStmt)
+		if !ok {
+			return true
+		}
+		var trunk *ast.SelectorExpr
+		ast.Inspect(is.Cond, func(j ast.Node) bool {
+			if sel, ok := j.(*ast.SelectorExpr); ok && sel.Sel.Name == "Trunk" {
+				if fv := fieldOf(info, sel); fv != nil {
+					if _, isPtr := fv.Type().(*types.Pointer); isPtr {
+						trunk = sel
+					}
+				}
+			}
+			return true
+		})
+		if trunk == nil {
+			return true
+		}
+		for _, r := range declReturns(is.Body) {
+			if !guardedFailure(fn, sig, r) {
+				continue
+			}
+			n++
+			c.Require("C11.R9", "podENICreate: refusal for the trunk flag only when the flag is set", fn, r, exprString(trunk)+" != nil", nil)
+		}
+		return true
+	})
+	c.Floor("C11.R9", "refusals guarded by the trunk flag", 1, n)
 }
